@@ -599,3 +599,42 @@ def run_more(chk, repo):
                           line=f.node.lineno,
                           witness='a control stream with two $PROBLEMs that repeat the same $PRED: editing a statement of the '
                                   'first removes the second problem\'s $PRED')
+    run_s11_s12(chk, repo)
+
+
+def run_s11_s12(chk, repo):
+    """S11: re-created ignored tokens carry the source text; S12: the parameter cursor of ThetaRecord.update advances by the
+    repeat count of each theta"""
+    from sa import reach
+    from sa.cfg import CFG
+    S11 = chk.rule('S11', 'tokens re-created for ignored characters take their text from the source slice [start_pos:end_pos]',
+                   floor=1)
+    im = repo.module('pharmpy.internals.parse.ignored')
+    f = im.functions.get('_tokenize_ignored_characters')
+    if f is None:
+        raise AnalysisError('_tokenize_ignored_characters not found')
+    src = f.params[0]
+    cfg = CFG(f.node)
+    n = 0
+    for c in [x for x in ast.walk(f.node) if isinstance(x, ast.Call) and dotted(x.func) == 'Token' and len(x.args) >= 2]:
+        kws = {k.arg: k.value for k in c.keywords}
+        if 'start_pos' not in kws or 'end_pos' not in kws:
+            continue
+        n += 1
+        nid = reach.node_containing(cfg, c)
+        val = reach.expand_expr(cfg, nid, c.args[1]) if nid is not None else c.args[1]
+        ok = isinstance(val, ast.Subscript) and unparse(val.value) == src and isinstance(val.slice, ast.Slice) \
+            and val.slice.lower is not None and val.slice.upper is not None \
+            and unparse(val.slice.lower) == unparse(kws['start_pos']) and unparse(val.slice.upper) == unparse(kws['end_pos'])
+        chk.instance(S11, f'{unparse(c)[:80]}: text is {src}[start_pos:end_pos]: {ok}')
+        if not ok:
+            chk.violation(S11, im.rel, f.name, unparse(c)[:100],
+                          'the token text is not the slice of the source it stands for: printing the tree does not reproduce '
+                          'the input', line=c.lineno,
+                          witness='a control stream with CR LF line ends (or tabs / several blanks) between the items of a '
+                                  '$THETA or option record: str(parse(T)) != T')
+    if n == 0:
+        raise AnalysisError('S11: no Token(...) with positions found in _tokenize_ignored_characters')
+    from rules.C04b import theta_cursor
+    S12 = chk.rule('S12', 'ThetaRecord.update: the parameter cursor advances by the repeat count (value)xN of each theta', floor=1)
+    theta_cursor(chk, S12, repo)
